@@ -31,7 +31,7 @@ class IncrementNode(Node):
 
     def __str__(self) -> str:
         assert isinstance(self.token, TagToken)
-        return f"{{%{self.token.wc[0]} increment {self.name} {self.token.wc[1]}%}}"
+        return f"{{%{self.token.wc[0]} increment {self.name.as_source()} {self.token.wc[1]}%}}"
 
     def render_to_output(self, context: RenderContext, buffer: TextIO) -> int:
         """Render the node to the output buffer."""
